@@ -599,11 +599,21 @@ impl Compiler {
             result: result_reg,
         });
 
+        // A let/const binding is fresh in every iteration (closures keep their own copy)
+        let per_iteration = Self::for_in_of_binds_lexically(&for_in.left);
+        if per_iteration {
+            self.builder.emit(Op::PushScope);
+        }
+
         // Bind to left side
         self.compile_for_in_of_left(&for_in.left, value_reg)?;
 
         // Compile body
         self.compile_statement_impl(&for_in.body)?;
+
+        if per_iteration {
+            self.builder.emit(Op::PopScope);
+        }
 
         // Jump back to start
         self.builder.emit_jump_to(loop_start);
@@ -697,6 +707,12 @@ impl Compiler {
             });
         }
 
+        // A let/const binding is fresh in every iteration (closures keep their own copy)
+        let per_iteration = Self::for_in_of_binds_lexically(&for_of.left);
+        if per_iteration {
+            self.builder.emit(Op::PushScope);
+        }
+
         // Bind to left side
         self.compile_for_in_of_left(&for_of.left, value_reg)?;
 
@@ -720,6 +736,10 @@ impl Compiler {
 
         // Pop iterator try handler (normal completion, no exception)
         self.builder.emit(Op::PopIterTry);
+
+        if per_iteration {
+            self.builder.emit(Op::PopScope);
+        }
 
         // Jump back to start
         self.builder.emit_jump_to(loop_start);
@@ -754,6 +774,14 @@ impl Compiler {
         self.builder.emit(Op::PopScope);
 
         Ok(())
+    }
+
+    /// Does the head of a for-in/for-of declare let/const bindings?
+    fn for_in_of_binds_lexically(left: &ForInOfLeft) -> bool {
+        match left {
+            ForInOfLeft::Variable(decl) => decl.kind != VariableKind::Var,
+            ForInOfLeft::Pattern(_) => false,
+        }
     }
 
     /// Compile the left side of a for-in/for-of
